@@ -1,5 +1,361 @@
-/- Proofs/C19Battery.lean — helper lemmas for Props/C19.lean -/
+/- Proofs/C19Battery.lean — helper lemmas for the battery part of Props/C19.lean -/
 import PsutilModel.Proofs.C19
 namespace Psutil.C19
 open Spec
+
+/-! ### lexicographic order on names, `min()` -/
+
+theorem lexLe_refl (a : Bytes) : lexLe a a = true := by
+  induction a with
+  | nil => rfl
+  | cons x xs ih => simp [lexLe, ih]
+
+theorem lexLe_total (a b : Bytes) : lexLe a b = true ∨ lexLe b a = true := by
+  induction a generalizing b with
+  | nil => left; cases b <;> rfl
+  | cons x xs ih =>
+    cases b with
+    | nil => right; rfl
+    | cons y ys =>
+      by_cases h1 : x < y
+      · left; simp [lexLe, h1]
+      · by_cases h2 : y < x
+        · right; simp [lexLe, h2]
+        · have : x = y := by omega
+          subst this
+          simp only [lexLe, Nat.lt_irrefl, if_false]
+          exact ih ys
+
+theorem lexLe_trans (a b c : Bytes) (h1 : lexLe a b = true) (h2 : lexLe b c = true) : lexLe a c = true := by
+  induction a generalizing b c with
+  | nil => cases c <;> rfl
+  | cons x xs ih =>
+    cases b with
+    | nil => simp [lexLe] at h1
+    | cons y ys =>
+      cases c with
+      | nil => simp [lexLe] at h2
+      | cons z zs =>
+        simp only [lexLe] at h1 h2 ⊢
+        by_cases hxy : x < y
+        · by_cases hyz : y < z
+          · have : x < z := by omega
+            simp [this]
+          · by_cases hzy : z < y
+            · simp [hyz, hzy] at h2
+            · have : y = z := by omega
+              subst this
+              simp [hxy]
+        · by_cases hyx : y < x
+          · simp [hxy, hyx] at h1
+          · have : x = y := by omega
+            subst this
+            simp only [hxy, if_false] at h1
+            by_cases hxz : x < z
+            · simp [hxz]
+            · by_cases hzx : z < x
+              · simp [hxz, hzx] at h2
+              · simp only [hxz, hzx, if_false] at h2 ⊢
+                exact ih ys zs h1 h2
+
+theorem lexLe_antisymm (a b : Bytes) (h1 : lexLe a b = true) (h2 : lexLe b a = true) : a = b := by
+  induction a generalizing b with
+  | nil => cases b with
+    | nil => rfl
+    | cons y ys => simp [lexLe] at h2
+  | cons x xs ih =>
+    cases b with
+    | nil => simp [lexLe] at h1
+    | cons y ys =>
+      simp only [lexLe] at h1 h2
+      by_cases hxy : x < y
+      · have : ¬ y < x := by omega
+        simp [hxy, this] at h2
+      · by_cases hyx : y < x
+        · simp [hxy, hyx] at h1
+        · have : x = y := by omega
+          subst this
+          simp only [hxy, if_false] at h1 h2
+          rw [ih ys h1 h2]
+
+theorem lexMin_mem (m : Bytes) (l : List Bytes) : lexMin m l ∈ m :: l := by
+  induction l generalizing m with
+  | nil => simp [lexMin]
+  | cons x xs ih =>
+    unfold lexMin
+    split
+    · have := ih m
+      simp only [List.mem_cons] at this ⊢
+      rcases this with h | h
+      · exact Or.inl h
+      · exact Or.inr (Or.inr h)
+    · have := ih x
+      simp only [List.mem_cons] at this ⊢
+      rcases this with h | h
+      · exact Or.inr (Or.inl h)
+      · exact Or.inr (Or.inr h)
+
+theorem lexMin_le_start (m : Bytes) (l : List Bytes) : lexLe (lexMin m l) m = true := by
+  induction l generalizing m with
+  | nil => exact lexLe_refl m
+  | cons x xs ih =>
+    unfold lexMin
+    split
+    · exact ih m
+    · rename_i h
+      have hx : lexLe x m = true := by
+        rcases lexLe_total m x with h' | h'
+        · exact absurd h' h
+        · exact h'
+      exact lexLe_trans _ _ _ (ih x) hx
+
+theorem lexMin_le (m : Bytes) (l : List Bytes) : ∀ y ∈ m :: l, lexLe (lexMin m l) y = true := by
+  induction l generalizing m with
+  | nil => intro y hy; simp at hy; subst hy; exact lexLe_refl _
+  | cons x xs ih =>
+    intro y hy
+    unfold lexMin
+    split
+    · rename_i h
+      simp only [List.mem_cons] at hy
+      rcases hy with rfl | rfl | hy
+      · exact ih y y (by simp)
+      · exact lexLe_trans _ _ _ (lexMin_le_start m xs) h
+      · exact ih m y (by simp [hy])
+    · rename_i h
+      have hx : lexLe x m = true := by
+        rcases lexLe_total m x with h' | h'
+        · exact absurd h' h
+        · exact h'
+      simp only [List.mem_cons] at hy
+      rcases hy with rfl | rfl | hy
+      · exact lexLe_trans _ _ _ (lexMin_le_start x xs) hx
+      · exact ih y y (by simp)
+      · exact ih x y (by simp [hy])
+
+/-! ### which battery -/
+
+theorem find?_congr' {α : Type} (l : List α) (p q : α → Bool) (h : ∀ a ∈ l, p a = q a) :
+    l.find? p = l.find? q := by
+  induction l with
+  | nil => rfl
+  | cons a as ih =>
+    simp only [List.find?_cons, h a (by simp)]
+    rw [ih (fun x hx => h x (by simp [hx]))]
+
+theorem ite_ok {ε α : Type} (c : Prop) [Decidable c] (a b : α) :
+    (if c then (Except.ok a : Except ε α) else Except.ok b) = Except.ok (if c then a else b) := by
+  split <;> rfl
+
+theorem isBattery_eq (c : Cfg) (hg : c.Good) (n : Bytes) : isBattery c n = isBatteryName n := by
+  unfold isBattery isBatteryName
+  rw [hg.batPrefix, hg.batInfix]
+
+/-- the battery the code picks (`min()` of the filtered names, then the directory of that name) is
+    the specification's "battery whose name is the lexicographic minimum" -/
+theorem first_battery (c : Cfg) (hg : c.Good) (ss : List Supply) (n : Bytes) (ns : List Bytes)
+    (h : (ss.map (·.name)).filter (isBattery c) = n :: ns) :
+    findSupply ss (lexMin n ns) = firstBattery ss := by
+  have hfun : isBattery c = isBatteryName := funext (isBattery_eq c hg)
+  rw [hfun] at h
+  unfold firstBattery findSupply
+  simp only
+  rw [List.find?_filter]
+  have hnames : ∀ x, x ∈ n :: ns ↔ ∃ s ∈ ss, isBatteryName s.name = true ∧ s.name = x := by
+    intro x
+    rw [← h]
+    simp only [List.mem_filter, List.mem_map]
+    constructor
+    · rintro ⟨⟨s, hs, rfl⟩, hb⟩; exact ⟨s, hs, hb, rfl⟩
+    · rintro ⟨s, hs, hb, rfl⟩; exact ⟨⟨s, hs, rfl⟩, hb⟩
+  apply find?_congr'
+  intro s hs
+  have hmin_mem := (hnames _).mp (lexMin_mem n ns)
+  rw [Bool.eq_iff_iff]
+  simp only [decide_eq_true_eq, beq_iff_eq, List.all_eq_true, List.mem_filter]
+  constructor
+  · intro he
+    obtain ⟨m, hm, hmb, hme⟩ := hmin_mem
+    refine ⟨?_, fun b' hb' => ?_⟩
+    · rw [he, ← hme]; exact hmb
+    · rw [he]
+      exact lexMin_le n ns _ ((hnames _).mpr ⟨b', hb'.1, hb'.2, rfl⟩)
+  · rintro ⟨hb, hall⟩
+    obtain ⟨m, hm, hmb, hme⟩ := hmin_mem
+    have h1 := hall m ⟨hm, hmb⟩
+    rw [hme] at h1
+    have h2 := lexMin_le n ns s.name ((hnames _).mpr ⟨s, hs, hb, rfl⟩)
+    exact lexLe_antisymm _ _ h1 h2
+
+theorem no_battery (c : Cfg) (hg : c.Good) (ss : List Supply)
+    (h : (ss.map (·.name)).filter (isBattery c) = []) : firstBattery ss = none := by
+  have hfun : isBattery c = isBatteryName := funext (isBattery_eq c hg)
+  rw [hfun, List.filter_map] at h
+  have : ss.filter (fun s => isBatteryName s.name) = [] := by
+    simpa [Function.comp_def] using h
+  unfold firstBattery
+  simp only [this, List.find?_nil]
+
+/-! ### `multi_bcat` -/
+
+def mvOf : Option MVal → Option (Option Int)
+  | none => none
+  | some (.int i) => some (some i)
+  | some (.raw _) => some none
+
+theorem mvOf_multi1 (a : FileState) : mvOf (multiBcat [a]) = fileInt a := by
+  cases a with
+  | absent => rfl
+  | unreadable => rfl
+  | content b => cases h : pyInt? b <;> simp [multiBcat, FileState.readOpt, fileInt, h, mvOf]
+
+theorem mvOf_multi2 (a b : FileState) : mvOf (multiBcat [a, b]) = altInt a b := by
+  cases a with
+  | absent => simpa [multiBcat, FileState.readOpt, altInt, fileInt] using mvOf_multi1 b
+  | unreadable => simpa [multiBcat, FileState.readOpt, altInt, fileInt] using mvOf_multi1 b
+  | content x => cases h : pyInt? x <;> simp [multiBcat, FileState.readOpt, altInt, fileInt, h, mvOf]
+
+theorem mval_beq_one (v : Int) : (MVal.int v == MVal.int 1) = (v == 1) := by
+  by_cases h : v = 1 <;> simp [h]
+
+/-! ### plugged / secsleft / percent -/
+
+theorem plugged_eq (c : Cfg) (hg : c.Good) (ss : List Supply) (b : Supply) :
+    pluggedOf ss b = batPlugged c ss b := by
+  unfold pluggedOf batPlugged acOnline
+  simp only [hg.ac0First, pair, if_true, findSupply]
+  rw [← mvOf_multi2]
+  generalize multiBcat _ = m
+  cases m with
+  | none =>
+    simp only [mvOf, fileText]
+    by_cases h1 : lower (stripWs (b.status.readOpt.getD [])) = bDischarging
+    · simp [h1]
+    · by_cases h2 : lower (stripWs (b.status.readOpt.getD [])) = bCharging ∨ lower (stripWs (b.status.readOpt.getD [])) = bFull
+      · simp only [h1, if_false, h2, if_true]
+      · simp only [h1, if_false, h2]
+  | some v =>
+    cases v with
+    | int i => simp [mvOf, mval_beq_one]
+    | raw r => simp [mvOf, ite_ok]
+
+theorem secsleft_eq (c : Cfg) (hg : c.Good) (pl : Option Bool) (now pw tte : Option MVal)
+    (h1 : mvOf now ≠ some none) (h2 : mvOf pw ≠ some none) (h3 : mvOf tte ≠ some none) :
+    batSecsleft c pl now pw tte = .ok (secsleftOf pl (mvOf now).join (mvOf pw).join (mvOf tte).join) := by
+  unfold batSecsleft secsleftOf
+  rw [hg.unknown, hg.unlimited, hg.hourSecs, hg.minSecs]
+  by_cases hp : pl = some true
+  · simp [hp]
+  · simp only [hp, if_false]
+    cases now with
+    | none =>
+      cases tte with
+      | none => cases pw <;> simp [mvOf, ite_ok]
+      | some t => cases t with
+        | int i => cases pw <;> simp [mvOf, ite_ok]
+        | raw r => simp [mvOf] at h3
+    | some n => cases n with
+      | raw r => simp [mvOf] at h1
+      | int n =>
+        cases pw with
+        | none =>
+          cases tte with
+          | none => simp [mvOf, ite_ok]
+          | some t => cases t with
+            | int i => simp [mvOf, ite_ok]
+            | raw r => simp [mvOf] at h3
+        | some p => cases p with
+          | raw r => simp [mvOf] at h2
+          | int p => by_cases hz : p = 0 <;> simp [mvOf, hz]
+
+theorem findSupply_some (c : Cfg) (ss : List Supply) (n : Bytes) (ns : List Bytes)
+    (h : (ss.map (·.name)).filter (isBattery c) = n :: ns) : ∃ b, findSupply ss (lexMin n ns) = some b := by
+  have hm : lexMin n ns ∈ (ss.map (·.name)).filter (isBattery c) := by rw [h]; exact lexMin_mem n ns
+  rw [List.mem_filter, List.mem_map] at hm
+  obtain ⟨⟨s, hs, he⟩, _⟩ := hm
+  cases hf : findSupply ss (lexMin n ns) with
+  | some b => exact ⟨b, rfl⟩
+  | none =>
+    unfold findSupply at hf
+    rw [List.find?_eq_none] at hf
+    have := hf s hs
+    simp [he] at this
+
+def resOpt {α : Type} : Res α → Option α
+  | .ok a => some a
+  | .error _ => none
+
+theorem capacity_eq (b : Supply) : capacityPercent b.capacity = resOpt (batCapacity b) := by
+  unfold capacityPercent fileInt batCapacity
+  cases hr : b.capacity.readOpt with
+  | none => rfl
+  | some cb =>
+    cases hi : pyInt? cb with
+    | none => simp [hi, resOpt]
+    | some i => by_cases h1 : i = -1 <;> simp [hi, h1, resOpt]
+
+theorem percent_eq (c : Cfg) (hg : c.Good) (b : Supply) (now full : Option MVal)
+    (h1 : mvOf now ≠ some none) (h2 : mvOf full ≠ some none) :
+    percentOf (mvOf now).join (mvOf full).join b.capacity = resOpt (batPercent c b now full) := by
+  unfold batPercent percentOf
+  rw [hg.pct]
+  cases now with
+  | none => cases full <;> simpa [mvOf] using capacity_eq b
+  | some n => cases n with
+    | raw r => simp [mvOf] at h1
+    | int n =>
+      cases full with
+      | none => simpa [mvOf] using capacity_eq b
+      | some f => cases f with
+        | raw r => simp [mvOf] at h2
+        | int f => by_cases hz : f = 0 <;> simp [mvOf, hz, resOpt]
+
+/-- **the battery function refines its specification** -/
+theorem battery_refines (c : Cfg) (hg : c.Good) (p : PowerTree) (v : Option BatOut)
+    (h : battery p = some v) : sensorsBattery c p = .ok v := by
+  unfold battery at h
+  unfold sensorsBattery
+  cases hd : p.dirExists with
+  | false => simp [hd] at h
+  | true =>
+    simp only [hd, Bool.not_true, Bool.false_eq_true, if_false] at h ⊢
+    cases hn : (p.supplies.map (·.name)).filter (isBattery c) with
+    | nil =>
+      rw [no_battery c hg _ hn] at h
+      simp only at h ⊢
+      rw [← Option.some.inj h]
+    | cons n ns =>
+      obtain ⟨b, hb⟩ := findSupply_some c p.supplies n ns hn
+      have hfb := first_battery c hg p.supplies n ns hn
+      rw [hb] at hfb
+      rw [← hfb] at h
+      simp only [hb]
+      simp only [hg.energyNowFirst, hg.powerNowFirst, hg.energyFullFirst, pair, if_true]
+      simp only [← mvOf_multi2, ← mvOf_multi1] at h
+      generalize multiBcat [b.energyNow, b.chargeNow] = x1 at h ⊢
+      generalize multiBcat [b.powerNow, b.currentNow] = x2 at h ⊢
+      generalize multiBcat [b.energyFull, b.chargeFull] = x3 at h ⊢
+      generalize multiBcat [b.timeToEmpty] = x4 at h ⊢
+      by_cases hgar : mvOf x1 = some none ∨ mvOf x2 = some none ∨ mvOf x3 = some none ∨ mvOf x4 = some none
+      · simp [hgar] at h
+      · simp only [hgar, if_false] at h
+        have g1 : mvOf x1 ≠ some none := fun e => hgar (Or.inl e)
+        have g2 : mvOf x2 ≠ some none := fun e => hgar (Or.inr (Or.inl e))
+        have g3 : mvOf x3 ≠ some none := fun e => hgar (Or.inr (Or.inr (Or.inl e)))
+        have g4 : mvOf x4 ≠ some none := fun e => hgar (Or.inr (Or.inr (Or.inr e)))
+        rw [percent_eq c hg b x1 x3 g1 g3] at h
+        cases hp : batPercent c b x1 x3 with
+        | error e => simp [hp, resOpt] at h
+        | ok r =>
+          rw [hp] at h
+          cases r with
+          | none => simp only [resOpt] at h; simp only; rw [← Option.some.inj h]
+          | some pc =>
+            simp only [resOpt] at h
+            simp only
+            rw [secsleft_eq c hg _ x1 x2 x4 g1 g2 g4]
+            simp only
+            rw [← plugged_eq c hg]
+            rw [← Option.some.inj h]
+
 end Psutil.C19
